@@ -15,6 +15,7 @@ type Delivery struct {
 	Retain  bool
 	Conn    int
 	Step    int
+	Epoch   int // session of the sender at the time (a session reset forgets exactly-once state)
 }
 
 // OutMsg is an application message from the broker to the client.
@@ -40,6 +41,10 @@ type Session struct {
 	Out      []*OutMsg
 	nextID   uint16
 	Subs     map[string]byte
+	// CleanOnly: created by a CONNECT with clean session; gone with its
+	// connection
+	CleanOnly bool
+	Epoch     int // counts the sessions of this client identifier
 }
 
 type BrokerOpts struct {
@@ -56,6 +61,7 @@ type Broker struct {
 	Sessions map[string]*Session
 	Deliv    []Delivery
 	Connects int
+	Resets   int // sessions with open state discarded (clean session)
 	ProtoErr []string // protocol violations by the client
 	st       map[int]*bconn
 	// SkipResend: when set and true for a message, its retransmission at a
@@ -192,11 +198,26 @@ func (b *Broker) onPacket(c *Conn, st *bconn, p *Packet) {
 			return
 		}
 		sess := b.Sessions[p.ClientID]
+		prev := sess
+		if sess != nil && sess.CleanOnly {
+			// "This Session lasts as long as the Network Connection.
+			// State data associated with this Session MUST NOT be
+			// reused in any subsequent Session" [MQTT-3.1.2-6]
+			sess = nil
+		}
 		sp := sess != nil && !p.Clean
 		if sess == nil || p.Clean {
 			sess = &Session{ClientID: p.ClientID, InQ2: map[uint16]bool{}, Subs: map[string]byte{}}
+			if prev != nil {
+				sess.Epoch = prev.Epoch + 1
+				if len(prev.Out) > 0 || len(prev.InQ2) > 0 {
+					b.Resets++
+					w.Probe("session_state_discarded")
+				}
+			}
 			b.Sessions[p.ClientID] = sess
 		}
+		sess.CleanOnly = p.Clean
 		st.sess = sess
 		st.connected = true
 		b.send(c, EncConnack(sp, 0))
@@ -224,7 +245,7 @@ func (b *Broker) onPacket(c *Conn, st *bconn, p *Packet) {
 	case CONNECT:
 		b.protoErr(c, "second CONNECT")
 	case PUBLISH:
-		d := Delivery{QoS: p.QoS, Topic: p.Topic, Payload: p.Payload, ID: p.ID, Dup: p.Dup, Retain: p.Retain, Conn: c.id, Step: w.Steps}
+		d := Delivery{QoS: p.QoS, Topic: p.Topic, Payload: p.Payload, ID: p.ID, Dup: p.Dup, Retain: p.Retain, Conn: c.id, Step: w.Steps, Epoch: sess.Epoch}
 		switch p.QoS {
 		case 0:
 			b.Deliv = append(b.Deliv, d)
